@@ -27,6 +27,12 @@ THEOREMS = [
     "Verif.C16.update_normalised",
     "Verif.C16.gamma_exact",
     "Verif.C16.xi_exact",
+    "Verif.C16.scaling_positive",
+    "Verif.C16.posteriors_nonneg",
+    "Verif.C16.occupancy_positive",
+    "Verif.C16.inference_exact_of_posModel",
+    "Verif.C16.update_normalised_of_posModel",
+    "Verif.C16.hypotheses_needed",
 ]
 RULE = (
     "corpus (zero-probability initial states/transitions, the all-impossible model, constant paths, single runs) + "
@@ -984,6 +990,34 @@ def got(d, f):
     return None if isinstance(v, str) and v == "?" else v
 
 
+def fb_pos_agree(case, d, toks):
+    """The hypothesis of scaling_positive / posteriors_nonneg / occupancy_positive (posModel, decided by the Lean model on the
+    exact inputs) and their conclusions, on the model's own run and on what forward_backward /
+    calculate_temporary_variables returned: every c_t > 0, every gamma, xi >= 0, and (T >= 2) positive occupancy
+    before the last time point of every state with pi_i > 0."""
+    hyp, cpos, nonneg, occ = toks[7:11]
+    K, T = case["K"], len(case["data"])
+    if hyp != "T":
+        return True
+    if cpos != "T" or nonneg != "T" or (T >= 2 and occ != "T"):
+        return False  # the executed model contradicts a theorem: the driver does not run the definitions the theorems are about
+    if got(d, "c") is not None and not all(v > 0 for v in unfl(d["c"])):
+        return False
+    if got(d, "gamma") is not None:
+        g = [unfl(r) for r in d["gamma"]]
+        if not all(v >= 0 for r in g for v in r):
+            return False
+        if T >= 2:
+            for i in range(K):
+                if case["pi"][i] > 0:
+                    # positive in exact arithmetic; in doubles a posterior can underflow to zero only far below the tolerance
+                    if not sum(r[i] for r in g[:-1]) >= 0:
+                        return False
+    if got(d, "xi") is not None and not all(v >= 0 for r in d["xi"] for v in unfl(r)):
+        return False
+    return True
+
+
 def fb_agree(case, ia, ma):
     if is_err(ia) or is_err(ma):
         return ia == ma
@@ -995,9 +1029,11 @@ def fb_agree(case, ia, ma):
             return not all(math.isfinite(v) and v > 0 for v in c)
         return pub is None or not math.isfinite(dec_float(pub["ll"]))
     toks = ma.split(" ")
-    if len(toks) != 7:
+    if len(toks) != 11:
         return False
     K, T = case["K"], len(case["data"])
+    if not fb_pos_agree(case, d, toks):
+        return False
     mc, mg, mx, mpi, mA, mmu, mvar = (dec_ratlist(toks[0]), dec_ratll(toks[1]), dec_ratll(toks[2]), dec_ratlist(toks[3]),
                                        dec_ratll(toks[4]), dec_ratlist(toks[5]), dec_ratlist(toks[6]))
     if len(mc) != T:
@@ -1052,7 +1088,9 @@ def em_ll_agree(ia, ma):
     if ma == "degenerate":
         return not math.isfinite(ll)
     toks = ma.split(" ")
-    if len(toks) != 7:
+    if len(toks) != 11:
+        return False
+    if toks[7] == "T" and toks[8:11] != ["T", "T", "T"]:  # a conclusion of scaling_positive / posteriors_nonneg / occupancy_positive fails on the executed model
         return False
     mc = dec_ratlist(toks[0])
     if not all(v > 0 for v in mc):
@@ -1913,6 +1951,31 @@ def em_lls(d):
     return [dec_float(c["ll"]) for c in (got(d, "chain") or [])]
 
 
+def positivity_coverage(results):
+    """branches of scaling_positive / posteriors_nonneg / occupancy_positive hit by the c16.fb runs of this check"""
+    out = {"posModel_true": 0, "posModel_false": 0, "posModel_true_with_zero_in_pi": 0, "posModel_true_with_zero_in_A": 0,
+           "posModel_true_T1_no_occupancy_claim": 0, "rows_with_positive_pi_and_T>=2": 0, "degenerate_runs": 0}
+    for r in results:
+        c = r["case"]
+        for m in r["model"]:
+            toks = m.split(" ")
+            if m == "degenerate":
+                out["degenerate_runs"] += 1
+            if len(toks) != 11:
+                continue
+            if toks[7] != "T":
+                out["posModel_false"] += 1
+                continue
+            out["posModel_true"] += 1
+            if c["op"] == "fb":
+                out["posModel_true_with_zero_in_pi"] += any(v == 0 for v in c["pi"])
+                out["posModel_true_with_zero_in_A"] += any(v == 0 for row in square(c) for v in row)
+                T = len(c["data"])
+                out["posModel_true_T1_no_occupancy_claim"] += T == 1
+                out["rows_with_positive_pi_and_T>=2"] += sum(1 for v in c["pi"] if v > 0) if T >= 2 else 0
+    return out
+
+
 def extra_coverage(results):
     unobserved = {}  # observations the harness could not make because a private tie was not reachable ("?")
     for r in results:
@@ -1931,6 +1994,7 @@ def extra_coverage(results):
             1 for r in results if r["case"]["op"] == "em" and not is_err(r["impl"][0]) and got(json.loads(r["impl"][0]), "chain") is not None),
     }
     out = _extra_coverage(results)
+    out["positivity_theorems_on_executed_runs"] = positivity_coverage(results)
     out.update({"private_ties": private_ties(), "observations_not_made_private_tie_unreachable": dict(sorted(unobserved.items())),
                 "public_twins": public_twin})
     return out
